@@ -28,7 +28,7 @@ ASSUMPTIONS = ["labels and words are drawn from what the formats can carry (no w
 
 
 def budget(tier):
-    return 3000 if tier == "quick" else 300000
+    return 6000 if tier == "quick" else 300000
 
 
 def generate(seed, tier):
